@@ -19,9 +19,8 @@ pub fn bounded_with_capacity<T>(capacity: usize) -> Vec<T> {
     // the whole file is 6 sectors = 3072 bytes; nothing read from it needs more elements than it has bytes
     assert!(capacity <= 4 * SEC * 6, "C05: an allocation is sized by a number the file merely claims (memory not proportional to the input)");
     // std itself relies on the capacity it asked for (e.g. collect() writes the first element unchecked)
-    // two concrete sizes instead of an allocation of symbolic size (which CBMC can only carry, not decide)
     let mut v = Vec::new();
-    if capacity <= 64 { v.reserve_exact(64); } else { v.reserve_exact(4 * SEC * 6); }
+    v.reserve_exact(capacity);
     v
 }
 
